@@ -165,7 +165,6 @@ fn data_of(v: &Value) -> Vec<u8> {
     vec![v["fill"].as_u64().unwrap_or(0) as u8; v["len"].as_u64().unwrap_or(0) as usize]
 }
 
-struct StepObs { res: String, res_js: Value, verify: String, verify_js: Value, objects: String, objects_js: Value, snap: Snap }
 
 fn access_res<T>(r: Result<T, AccessError<u64>>, ok: impl FnOnce(T) -> (String, Value)) -> (String, Value) {
     match r {
@@ -176,7 +175,26 @@ fn access_res<T>(r: Result<T, AccessError<u64>>, ok: impl FnOnce(T) -> (String, 
     }
 }
 
-fn run_ops<M: MetaLike>(input: &Value, msz: usize) -> (Vec<(Vec<u8>, u64)>, u64, Vec<String>, Vec<StepObs>, bool) {
+/// Coq term of one operation of the input.
+fn op_term(op: &Value) -> String {
+    let kind = op["op"].as_str().unwrap();
+    let name = op.get("name").map(bytes_of).unwrap_or_default();
+    let meta = op["meta"].as_u64().unwrap_or(0);
+    let chk = chk_of(&op["chk"]);
+    match kind {
+        "publish" => format!("Publish {} {} {}", coq_bytes(&name), meta, coq_data(&data_of(op))),
+        "update" => format!("Update {} {} {} {}", coq_bytes(&name), meta, coq_data(&data_of(op)), chk.coq()),
+        "delete" => format!("Delete {} {}", coq_bytes(&name), chk.coq()),
+        "fetch" => format!("Fetch {}", coq_bytes(&name)),
+        "fetch_if" => format!("FetchIf {} {}", coq_bytes(&name), chk.coq()),
+        "reopen" => "Reopen".to_string(),
+        k => panic!("unknown op {}", k),
+    }
+}
+
+/// Runs the case on the real archive (in the child process) and emits one JSON line per observation:
+/// {"k":"hdr",..} first, then {"k":"init",..} per AppendArchive publish, {"k":"step",..} per operation, {"k":"end"}.
+fn run_ops<M: MetaLike>(input: &Value, msz: usize, emit: &mut dyn FnMut(Value)) {
     let dir = tempfile::tempdir().unwrap();
     let path = dir.path().join("a.bin");
     let names: Vec<Vec<u8>> = {
@@ -187,8 +205,7 @@ fn run_ops<M: MetaLike>(input: &Value, msz: usize) -> (Vec<(Vec<u8>, u64)>, u64,
         v
     };
     // creation
-    let mut init_terms = Vec::new();
-    let mut init_obs: Vec<StepObs> = Vec::new();
+    let mut init_lines = Vec::new();
     let mut archive: Archive<M> = if !input["create"].is_object() {
         if let Some(init) = input["init"].as_array() {
             // created by AppendArchive: publishes, finalize, then opened as a normal archive
@@ -196,15 +213,12 @@ fn run_ops<M: MetaLike>(input: &Value, msz: usize) -> (Vec<(Vec<u8>, u64)>, u64,
             for op in init {
                 let (name, data, meta) = (bytes_of(&op["name"]), data_of(op), op["meta"].as_u64().unwrap_or(0));
                 let r = app.publish(&name, &M::mk(meta), &data);
-                init_terms.push(format!("({}, {}, {})", coq_bytes(&name), meta, coq_data(&data)));
                 let (res, res_js) = match r {
                     Ok(()) => ("ROk".to_string(), json!("ok")),
                     Err(PublishError::AlreadyExists) => ("RAlreadyExists".into(), json!("already_exists")),
                     Err(PublishError::Archive(e)) => ("RErr".into(), json!({"archive_error": e.to_string()})),
                 };
-                init_obs.push(StepObs { res, res_js, verify: String::new(), verify_js: Value::Null,
-                    objects: String::new(), objects_js: Value::Null,
-                    snap: Snap { fsize: 0, nb: 0, idx: vec![], eidx: 0, segs: vec![], walk_ok: true } });
+                init_lines.push(json!({"k": "init", "res": res, "js": res_js}));
             }
             app.finalize().unwrap();
             drop(app);
@@ -222,8 +236,10 @@ fn run_ops<M: MetaLike>(input: &Value, msz: usize) -> (Vec<(Vec<u8>, u64)>, u64,
     };
     let buckets: Vec<(Vec<u8>, u64)> = names.iter().map(|n| (n.clone(), archive.verif_hash_name(n))).collect();
     let nb = parse_raw(&path, msz).nb;
+    emit(json!({"k": "hdr", "nb": nb, "buckets": buckets}));
+    for l in init_lines { emit(l) }
 
-    let observe = |archive: &Archive<M>, res: (String, Value)| -> StepObs {
+    let observe = |archive: &Archive<M>, res: (String, Value)| -> Value {
         let (verify, verify_js) = match catch_unwind(AssertUnwindSafe(|| archive.verify())) {
             Ok(Ok(s)) => (format!("(Ok (mkstats {} {} {} {} {} {} {}))", s.object_count, s.object_size, s.padding_size,
                               s.empty_count, s.empty_size, s.empty_min, s.empty_max),
@@ -248,27 +264,18 @@ fn run_ops<M: MetaLike>(input: &Value, msz: usize) -> (Vec<(Vec<u8>, u64)>, u64,
             Ok(Err(e)) => ("(Er ECorrupt)".into(), json!({"error": e.to_string()})),
             Err(_) => ("(Er EPanic)".into(), json!("panic")),
         };
-        StepObs { res: res.0, res_js: res.1, verify, verify_js, objects, objects_js, snap: parse_raw(&path, msz) }
+        let snap = parse_raw(&path, msz);
+        json!({"k": "step",
+               "obs": format!("{{| o_res := {}; o_verify := {}; o_objects := {}; o_snap := {} |}}", res.0, verify, objects, snap.coq()),
+               "js": {"res": res.1, "verify": verify_js, "objects": objects_js, "raw": snap.json()},
+               "nt": snap.segs.len() >= 2 && snap.segs.iter().any(|s| s.empty)})
     };
 
-    let mut terms = Vec::new();
-    let mut obs = Vec::new();
-    let mut panicked = false;
     for op in input["ops"].as_array().unwrap() {
         let kind = op["op"].as_str().unwrap();
         let name = op.get("name").map(bytes_of).unwrap_or_default();
         let meta = op["meta"].as_u64().unwrap_or(0);
         let chk = chk_of(&op["chk"]);
-        let term: String = match kind {
-            "publish" => format!("Publish {} {} {}", coq_bytes(&name), meta, coq_data(&data_of(op))),
-            "update" => format!("Update {} {} {} {}", coq_bytes(&name), meta, coq_data(&data_of(op)), chk.coq()),
-            "delete" => format!("Delete {} {}", coq_bytes(&name), chk.coq()),
-            "fetch" => format!("Fetch {}", coq_bytes(&name)),
-            "fetch_if" => format!("FetchIf {} {}", coq_bytes(&name), chk.coq()),
-            "reopen" => "Reopen".to_string(),
-            k => panic!("unknown op {}", k),
-        };
-        terms.push(term);
         let r = catch_unwind(AssertUnwindSafe(|| -> (String, Value) {
             match kind {
                 "publish" => match archive.publish(&name, &M::mk(meta), &data_of(op)) {
@@ -294,50 +301,117 @@ fn run_ops<M: MetaLike>(input: &Value, msz: usize) -> (Vec<(Vec<u8>, u64)>, u64,
             // drop the handle and open the file again (writable)
             let tmp = std::mem::replace(&mut archive, Archive::open(&path, true).unwrap());
             drop(tmp);
-            archive = Archive::open(&path, true).unwrap();
         }
         match r {
-            Ok(res) => obs.push(observe(&archive, res)),
+            Ok(res) => emit(observe(&archive, res)),
             Err(_) => {
-                obs.push(observe(&archive, ("RPanic".into(), json!("panic"))));
-                panicked = true;
+                // the operation panicked: record it and stop (the handle may be poisoned)
+                emit(observe(&archive, ("RPanic".into(), json!("panic"))));
                 break;
             }
         }
     }
-    let _ = panicked;
-    let mut all_terms = init_terms;
-    let n_init = all_terms.len();
-    all_terms.extend(terms);
-    let mut all_obs = init_obs;
-    all_obs.extend(obs);
-    (buckets, nb, all_terms, all_obs, n_init > 0)
+    emit(json!({"k": "end"}));
 }
 
+/// Child process entry: one input JSON per line on stdin, observation lines on stdout.
+fn child_main() {
+    std::panic::set_hook(Box::new(|_| {}));
+    let mut emit = |v: Value| {
+        use std::io::Write;
+        let mut o = std::io::stdout().lock();
+        writeln!(o, "{}", v).unwrap();
+        o.flush().unwrap();
+    };
+    for line in std::io::BufRead::lines(std::io::stdin().lock()) {
+        let input: Value = serde_json::from_str(&line.unwrap()).unwrap();
+        let msz = input["msz"].as_u64().unwrap_or(4) as usize;
+        if msz == 11 { run_ops::<M11>(&input, 11, &mut emit) } else { run_ops::<M4>(&input, 4, &mut emit) }
+    }
+}
+
+struct Worker { child: std::process::Child, stdin: std::process::ChildStdin, rx: std::sync::mpsc::Receiver<String> }
+
+fn spawn_worker() -> Worker {
+    use std::io::BufRead;
+    use std::process::{Command, Stdio};
+    let exe = std::env::current_exe().unwrap();
+    let mut child = Command::new("sh")
+        .arg("-c").arg("ulimit -v 4000000; exec \"$0\" child").arg(&exe)
+        .stdin(Stdio::piped()).stdout(Stdio::piped()).stderr(Stdio::null())
+        .spawn().expect("spawn child");
+    let stdin = child.stdin.take().unwrap();
+    let out = child.stdout.take().unwrap();
+    let (tx, rx) = std::sync::mpsc::channel::<String>();
+    std::thread::spawn(move || {
+        for line in std::io::BufReader::new(out).lines() {
+            match line { Ok(l) => { if tx.send(l).is_err() { break } } Err(_) => break }
+        }
+    });
+    Worker { child, stdin, rx }
+}
+
+thread_local! { static WORKER: std::cell::RefCell<Option<Worker>> = std::cell::RefCell::new(None); }
+
+/// Runs one case in a worker process with an address-space limit and a deadline: a corrupted archive can make
+/// the real code loop forever or allocate without bound (cyclic chain); what was observed until then is the case.
+/// The worker is reused for the following cases unless it had to be killed.
 fn run(input: &Value) -> CaseOut {
-    let msz = input["msz"].as_u64().unwrap_or(4) as usize;
-    let (buckets, nb, terms, obs, has_init) = if msz == 11 { run_ops::<M11>(input, 11) } else { run_ops::<M4>(input, 4) };
-    let n_init = input["init"].as_array().map(|a| a.len()).unwrap_or(0);
-    let _ = has_init;
-    let init_terms = &terms[..n_init];
-    let op_terms = &terms[n_init..];
+    use std::io::Write;
+    let mut w = WORKER.with(|c| c.borrow_mut().take()).unwrap_or_else(spawn_worker);
+    let sent = writeln!(w.stdin, "{}", input).and_then(|_| w.stdin.flush()).is_ok();
+    let deadline = std::time::Instant::now() + std::time::Duration::from_secs(
+        std::env::var("C26_CASE_TIMEOUT").ok().and_then(|s| s.parse().ok()).unwrap_or(40));
+    let mut lines: Vec<Value> = Vec::new();
+    let mut ended = false;
+    let mut aborted = "crashed";
+    while sent {
+        let now = std::time::Instant::now();
+        if now >= deadline { aborted = "timeout"; break }
+        match w.rx.recv_timeout(deadline - now) {
+            Ok(l) => {
+                let v: Value = serde_json::from_str(&l).expect("child line");
+                if v["k"] == "end" { ended = true; break }
+                lines.push(v);
+            }
+            Err(std::sync::mpsc::RecvTimeoutError::Timeout) => { aborted = "timeout"; break }
+            Err(std::sync::mpsc::RecvTimeoutError::Disconnected) => break,
+        }
+    }
+    if ended {
+        WORKER.with(|c| *c.borrow_mut() = Some(w));
+    } else {
+        let _ = w.child.kill();
+        let _ = w.child.wait();
+    }
+    let hdr = lines.iter().find(|l| l["k"] == "hdr").expect("child produced no header (creation failed)").clone();
+    let msz = input["msz"].as_u64().unwrap_or(4);
+    let buckets: Vec<(Vec<u8>, u64)> = hdr["buckets"].as_array().unwrap().iter()
+        .map(|b| (bytes_of(&b[0]), b[1].as_u64().unwrap())).collect();
+    let init_terms: Vec<String> = input["init"].as_array().into_iter().flatten().map(|op| {
+        format!("({}, {}, {})", coq_bytes(&bytes_of(&op["name"])), op["meta"].as_u64().unwrap_or(0), coq_data(&data_of(op)))
+    }).collect();
+    let op_terms: Vec<String> = input["ops"].as_array().unwrap().iter().map(op_term).collect();
+    let inits: Vec<&Value> = lines.iter().filter(|l| l["k"] == "init").collect();
+    let steps: Vec<&Value> = lines.iter().filter(|l| l["k"] == "step").collect();
     let coq = format!(
         "{{| c_nb := {}; c_msz := {}; c_buckets := {}; c_init := {}; c_init_impl := {}; c_ops := {}; c_impl := {} |}}",
-        nb, msz,
+        hdr["nb"], msz,
         coq_list(buckets.iter(), |(n, b)| format!("({}, {})", coq_bytes(n), b)),
         coq_list(init_terms.iter(), |t| t.clone()),
-        coq_list(obs[..n_init].iter(), |o| o.res.clone()),
+        coq_list(inits.iter(), |o| o["res"].as_str().unwrap().to_string()),
         coq_list(op_terms.iter(), |t| format!("({})", t)),
-        coq_list(obs[n_init..].iter(), |o| format!(
-            "{{| o_res := {}; o_verify := {}; o_objects := {}; o_snap := {} |}}", o.res, o.verify, o.objects, o.snap.coq())),
+        coq_list(steps.iter(), |o| o["obs"].as_str().unwrap().to_string()),
     );
-    let nontrivial = obs[n_init..].iter().any(|o| o.snap.segs.len() >= 2 && o.snap.segs.iter().any(|s| s.empty));
-    let js = json!({
-        "buckets": buckets, "nb": nb,
-        "init": obs[..n_init].iter().map(|o| o.res_js.clone()).collect::<Vec<_>>(),
-        "steps": obs[n_init..].iter().map(|o| json!({"res": o.res_js, "verify": o.verify_js, "objects": o.objects_js,
-                                                       "raw": o.snap.json()})).collect::<Vec<_>>(),
+    let nontrivial = steps.iter().any(|o| o["nt"] == true);
+    let mut js = json!({
+        "buckets": buckets, "nb": hdr["nb"],
+        "init": inits.iter().map(|o| o["js"].clone()).collect::<Vec<_>>(),
+        "steps": steps.iter().map(|o| o["js"].clone()).collect::<Vec<_>>(),
     });
+    // a sequence that stopped early (panic, endless loop, crash) has fewer observations than operations:
+    // the oracle then fails on it (steps_okb demands one observation per operation)
+    if !ended { js["aborted"] = json!(aborted); }
     CaseOut { obs: js, coq, nontrivial }
 }
 
@@ -555,4 +629,6 @@ fn gen(rng: &mut Rng, tier: &str) -> Vec<(String, Value)> {
     dealt.into_iter().map(|(_, c)| c).collect()
 }
 
-fn main() { drive(gen, run) }
+fn main() {
+    if std::env::args().nth(1).as_deref() == Some("child") { child_main() } else { drive(gen, run) }
+}
